@@ -210,6 +210,9 @@ func internalMarshal(v any) (*internalStruct, error) {
 		}
 		ret.MapValueType = key
 		ret.ContainerType = definedContainerKey(rt)
+		if ret.PointerNum > 0 && rt.Name() != "" && len(ret.ContainerType) == 0 {
+			return nil, fmt.Errorf("unknown type: %v", rt)
+		}
 
 		ret.MapValues = make(map[string]*internalStruct)
 
@@ -245,6 +248,9 @@ func internalMarshal(v any) (*internalStruct, error) {
 		ret.SliceValueType = key
 		ret.IsArray = rt.Kind() == reflect.Array
 		ret.ContainerType = definedContainerKey(rt)
+		if ret.PointerNum > 0 && rt.Name() != "" && len(ret.ContainerType) == 0 {
+			return nil, fmt.Errorf("unknown type: %v", rt)
+		}
 
 		length := rv.Len()
 		ret.SliceValues = make([]*internalStruct, length)
@@ -425,7 +431,10 @@ func internalUnmarshal(v *internalStruct) (any, error) {
 }
 
 // definedContainerKey is the registered name of a defined map / slice / array type; the
-// unnamed type built from the element types is the right one for everything else.
+// unnamed type built from the element types is the right one for everything else. (A
+// defined type that is not registered is rebuilt as the unnamed type, which a field or
+// element typed with the defined type still accepts, but not behind a pointer: a pointer
+// to an unregistered defined container type is refused like a nil one.)
 func definedContainerKey(rt reflect.Type) string {
 	if rt.Name() == "" {
 		return ""
